@@ -224,11 +224,22 @@ theorem dry_emitSymbol (c : Ctx) (h : c.dryRun = true) (name : Str) (ef ifp : Pa
   simp only [h, if_true]
   repeat alleff_step
 
+theorem dry_efhPrepare (c : Ctx) (h : c.dryRun = true) (modName : Str) :
+    AllEff OK I IsPrint (efhPrepare c modName) := by
+  unfold efhPrepare
+  simp only [h, if_true]
+  repeat alleff_step
+
+theorem dry_efhEmit (c : Ctx) (h : c.dryRun = true) (name : Str) (rel : Path) (irName : Option Str) :
+    AllEff OK I IsPrint (efhEmit c name rel irName) := by
+  unfold efhEmit
+  simp only [h, if_true]
+  repeat (first | exact dry_emitSymbol c h _ _ _ | alleff_step)
+
 theorem dry_emitFileOnHierarchy (c : Ctx) (h : c.dryRun = true) (mn key : Str) (orig : Path) (irName : Option Str) :
     AllEff OK I IsPrint (emitFileOnHierarchy c mn key orig irName) := by
   unfold emitFileOnHierarchy
-  simp only [h, if_true]
-  repeat (first | exact dry_emitSymbol c h _ _ _ | alleff_step)
+  repeat (first | exact dry_efhPrepare c h _ | exact dry_efhEmit c h _ _ _ | alleff_step)
 
 theorem dry_emitFiles (env : Env) (c : Ctx) (h : c.dryRun = true) (mn : Str) (d : Path) :
     AllEff OK I IsPrint (emitFiles env c mn d) := by
